@@ -404,7 +404,10 @@ def main(argv):
     from faultrun import Scripted
     icalls = [{"op": "set", "k": "session", "v": b"x\r\nflush_all\r\n" + b"y" * 60, "nr": None}, {"op": "get", "k": "some_key"}, {"op": "incr", "k": "n", "d": 3, "nr": False},
               {"op": "delete_many", "ks": ["a", "b", "c"], "nr": False}, {"op": "set_many", "items": [("a", b"flush_all"), ("b", b"2")], "nr": True},
-              {"op": "get_many", "ks": ["a", "b", "c", "d"]}, {"op": "touch", "k": "k", "e": 10, "nr": None}, {"op": "cas", "k": "k", "v": b"v", "cas": b"7", "nr": False}]
+              {"op": "get_many", "ks": ["a", "b", "c", "d"]}, {"op": "touch", "k": "k", "e": 10, "nr": None}, {"op": "cas", "k": "k", "v": b"v", "cas": b"7", "nr": False},
+              # the reply-less forms of the commands that carry no data block
+              {"op": "delete", "k": "session", "nr": True}, {"op": "incr", "k": "counter", "d": 1, "nr": True}, {"op": "delete_many", "ks": ["k%d" % i_ for i_ in range(12)], "nr": True},
+              {"op": "flush_all", "d": 0, "nr": None}, {"op": "touch", "k": "session", "e": 30, "nr": True}]
     for ikind in ("Client", "Pooled", "Hash"):
         for c in icalls:
             def fresh():
@@ -426,11 +429,26 @@ def main(argv):
                     per_conn = [b"".join(d for t, d in cn.sent if t == "call") for cn in S1.world.conns]
                     ctx.case(("interrupted-send", ikind, repr(c), cut, fk))
                     ctx.count("interrupted-sends")
+                    bad_ = False
                     for got in per_conn:
                         if not healthy.startswith(got):
+                            bad_ = True
                             ctx.violation("after an interrupted send the connection carried more than (a prefix of) the intended command",
                                           {"class": ikind, "call": repr(c), "fault": fk, "delivered_before_fault": cut, "result": r, "intended": hx(healthy), "carried": hx(got)},
                                           tags=["interrupted-send", "class:" + ikind])
+                    if bad_ or not r.startswith("exc:"):
+                        continue
+                    # the object is used again: a connection that carries a FRAGMENT of the interrupted request must carry nothing after it - the next
+                    # request written behind the fragment would be read by the server as the tail of the unfinished command
+                    S1.begin_call("next", {})
+                    r2 = run_call(o1, {"op": "set", "k": "foo", "v": b"flush_all", "nr": None})
+                    for cn in S1.world.conns:
+                        first = b"".join(d for t, d in cn.sent if t == "call")
+                        after_ = b"".join(d for t, d in cn.sent if t == "next")
+                        if after_ and 0 < len(first) < len(healthy):
+                            ctx.violation("the next request was written on the connection behind the fragment of an interrupted one",
+                                          {"class": ikind, "interrupted_call": repr(c), "fault": fk, "delivered_before_fault": cut, "fragment": hx(first), "then": hx(after_[:60]),
+                                           "results": [r, r2]}, tags=["interrupted-send", "fragment-then-request", "class:" + ikind])
     if ctx.lean.build_ok:
         for (case, want), o in zip(seq_metas, ctx.driver.batch(seq_lines)):
             if o != "ok " + want:
